@@ -367,8 +367,10 @@ deriving DecidableEq, Repr
 
 /-- constants of the call path, regenerated from the source (see `Params.real`). -/
 structure Params where
-  /-- `f &^= …` for safe methods (call.go:94) -/
+  /-- flags dropped for safe methods on the System.Contract.Call path (callInternal, call.go:93-95, plus anything local to Call) -/
   safeDrop : CallFlags
+  /-- flags dropped for safe methods on the CALLT path (LoadToken → callInternal, plus anything local to LoadToken) -/
+  safeDropToken : CallFlags
   /-- constant factor of LoadScript's child flags (engine.go:132) -/
   loadScriptMask : CallFlags
   /-- flags requested by CallFromNative (call.go:210) -/
@@ -378,8 +380,9 @@ deriving Repr
 inductive Instr where
   /-- a system call or a native method body that does not start a call -/
   | prim (p : Prim)
-  /-- System.Contract.Call (`p` = its table entry) or CALLT (`p` = LoadToken's literal check): requested flags, callee -/
-  | call (p : Prim) (requested : CallFlags) (t : Target)
+  /-- System.Contract.Call (`viaToken = false`, `p` = its table entry, requested flags from the stack) or CALLT
+  (`viaToken = true`, `p` = LoadToken's literal check, requested flags from the NEF method token); callee -/
+  | call (p : Prim) (viaToken : Bool) (requested : CallFlags) (t : Target)
   /-- System.Runtime.LoadScript (`p` = its table entry) -/
   | loadScript (p : Prim) (requested : CallFlags)
   /-- a native method `p` calling a contract through contract.CallFromNative -/
@@ -391,7 +394,7 @@ deriving Repr
 /-- the primitive whose flag check guards the instruction. -/
 def Instr.prim? : Instr → Option Prim
   | .prim p => some p
-  | .call p _ _ => some p
+  | .call p _ _ _ => some p
   | .loadScript p _ => some p
   | .nativeCall p _ => some p
   | .ret => Option.none
@@ -425,9 +428,9 @@ def halt (s : State) : State := { s with halted := true }
 def primEvents (p : Prim) (st : List Frame) : List Event :=
   (if p.eff.notify then [⟨.notify, st, none⟩] else []) ++ (if p.eff.write then [⟨.write, st, none⟩] else [])
 
-/-- child flags of a contract call: callInternal (call.go:93-95) then callExFromNative (call.go:157). -/
-def childFlags (P : Params) (cur : CallFlags) (requested : CallFlags) (safe : Bool) : CallFlags :=
-  cur.inter (if safe then requested.minus P.safeDrop else requested)
+/-- child flags of a contract call: the safe-method drop of the path taken (Call / LoadToken → callInternal, call.go:93-95) then callExFromNative (call.go:157). -/
+def childFlags (P : Params) (viaToken : Bool) (cur : CallFlags) (requested : CallFlags) (safe : Bool) : CallFlags :=
+  cur.inter (if safe then requested.minus (if viaToken then P.safeDropToken else P.safeDrop) else requested)
 
 /-- the permission check of callInternal (call.go:96-110): only for non-safe methods called from a deployed context. -/
 def permitted (cur : Frame) (t : Target) : Bool :=
@@ -448,9 +451,9 @@ def step (P : Params) (s : State) (i : Instr) : State :=
     match i with
     | .prim p =>
       if cur.flags.has p.req then { s with events := primEvents p s.stack ++ s.events } else halt s
-    | .call p requested t =>
+    | .call p viaToken requested t =>
       if cur.flags.has p.req && p.eff.call && permitted cur t then
-        let child : Frame := ⟨childFlags P cur.flags requested t.safe, some t.manifest, t.safe⟩
+        let child : Frame := ⟨childFlags P viaToken cur.flags requested t.safe, some t.manifest, t.safe⟩
         { s with stack := child :: s.stack, events := ⟨.call, s.stack, some t⟩ :: s.events }
       else halt s
     | .loadScript p requested =>
@@ -472,7 +475,8 @@ def run (P : Params) (s : State) (prog : List Instr) : State := prog.foldl (step
 
 /-- the constants as the current source has them. -/
 def Params.real : Params :=
-  { safeDrop := CallFlags.ofNat Generated.Interops.safeDropMask
+  { safeDrop := CallFlags.ofNat ((if Generated.Interops.callViaInternal then Generated.Interops.safeDropMask else 0) ||| Generated.Interops.safeDropCallOnly)
+    safeDropToken := CallFlags.ofNat ((if Generated.Interops.tokenViaInternal then Generated.Interops.safeDropMask else 0) ||| Generated.Interops.safeDropTokenOnly)
     loadScriptMask := CallFlags.ofNat Generated.Interops.loadScriptMask
     fromNative := CallFlags.ofNat Generated.Interops.callFromNativeFlags }
 
